@@ -1,5 +1,8 @@
 """C02 -- lossless mode reproduces every sample exactly.
 
+0. translator  : tools/gen_Lossless.py reads PREDICTOR1..7, the wiring of jpeg_[un]difference1..7, the
+                 first-row switch, the "& 0xFFFF" masks, restart accounting and the category-coder constants
+                 from the CURRENT sources -> coq/gen/GenLossless.v; C02_source_facts proves they are the model's.
 1. proofs      : coq/props/C02.v (model/Lossless.v, proofs/LosslessProofs.v): row round trip for every
                  predictor incl. the modulo-2^16 reconstruction, whole component over any number of rows
                  and restart resets, difference categories 0..16 / bit level, point transform.
@@ -254,6 +257,7 @@ def oracle(case, impl):
 
 def run(ctx):
     rng = ctx.rng
+    ctx.regen(["Lossless"])
     ctx.prove()
     drv = ctx.model_driver()
     flavours = ["simd"] if not ctx.thorough() else ["simd", "asan"]
